@@ -1,0 +1,38 @@
+//go:build verif
+
+package tchannel
+
+// C04: the exchange table of a connection direction is a monitor. Its lock
+// guards the two maps and the shutdown flag; other threads may change them
+// whenever the lock is not held (the engine forgets them at every acquisition),
+// and every critical section that writes them re-establishes the table
+// invariant "the exchange registered under id k has message id k".
+//@ monitor (mexset *messageExchangeSet) RWMutex guards exchanges, expiredExchanges, shutdown
+//@   label exchange-registered-under-its-own-id
+//@   invariant forall k uint32 :: has(mexset.exchanges, k) ==> mexset.exchanges[k] != nil && mexset.exchanges[k].msgID == k
+
+// The two table primitives run with the table's write lock held by the caller.
+//@ func (mexset *messageExchangeSet) addExchange(mex *messageExchange) (err error)
+//@   requires locked(mexset)
+//@   property C04
+//@ func (mexset *messageExchangeSet) deleteExchange(msgID uint32) (found bool, timedOut bool)
+//@   requires locked(mexset)
+//@   property C04
+
+// copyExchanges (caller holds the lock) leaves the table alone; the copy is a new map.
+//@ func (mexset *messageExchangeSet) copyExchanges() (shutdown bool, exchanges map[uint32]*messageExchange)
+//@   requires locked(mexset)
+//@   modifies nothing
+//@   ensures shutdown == mexset.shutdown
+//@   ensures shutdown ==> exchanges == nil
+//@   property C04
+
+// count: the number of registered exchanges at the time of counting; the ghost
+// nexch(table) remembers the most recent count (the table itself may change as
+// soon as the lock is released).
+//@ ghostfield nexch
+//@ func (mexset *messageExchangeSet) count() (n int)
+//@   modifies nexch(mexset)
+//@   defines nexch(mexset) == n
+//@   ensures n >= 0
+//@   property C04
